@@ -62,6 +62,7 @@ type Scenario struct {
 	InitialMAC  bool         `json:"initial_mac,omitempty"`
 	TimersFirst bool         `json:"timers_first,omitempty"`
 	TsigErr     int          `json:"tsig_err,omitempty"`     // the first message's TSIG carries this error code (18 = BADTIME, with six octets of other data): covered by the MAC like every other variable, and no excuse for a stale time
+	KeyCase     bool         `json:"key_case,omitempty"`     // bare: the stub spells the key name with capitals (a stub made by hand, or echoed from a peer that spells it so): the digest takes the name in canonical form all the same
 	DefaultTime bool         `json:"default_time,omitempty"` // the stub TSIG carries time 0 ("now") and the MAC comes from a provider that takes 1.2 s of simulated time
 	Parallel    int          `json:"parallel,omitempty"`     // kind parallel: that many signer/verifier tasks share one key and algorithm
 	Events      []Event      `json:"events,omitempty"`
@@ -74,6 +75,8 @@ type Scenario struct {
 	Transport string           `json:"transport,omitempty"` // session: tcp (through the middlebox) | udp (concurrent clients, server with a TSIG provider that takes a scheduling point)
 	Clients   int              `json:"clients,omitempty"`
 	Provider  int              `json:"provider,omitempty"`    // tcp session: bit 0 the client, bit 1 the server is given its keys through a TsigProvider (own HMAC code) instead of a secret map
+	Split     bool             `json:"split,omitempty"`       // tcp session: the client writes its queries in one task and reads the replies in another (a pipelining caller), instead of calling ExchangeWithConn
+	Stall     int              `json:"stall,omitempty"`       // tcp session: chance (percent) that a thread loses the processor for up to 50 ms of simulated time right after a write has returned - the peer may answer meanwhile
 	Async     bool             `json:"async_reply,omitempty"` // session: the handler returns at once and answers from another task a little later, through the ResponseWriter it was given
 	Burst     bool             `json:"burst,omitempty"`       // udp: every client sends all its requests before reading any reply
 	Xfer      json.RawMessage  `json:"transfer,omitempty"`    // kind transfer: a zone-transfer session with TSIG (scenario of the C15 harness)
@@ -118,6 +121,10 @@ func Gen(seed uint64, tier string) any {
 		sc.ServerKey = core.Pick(r, "right", "right", "right", "right", "wrong", "none", "empty")
 		sc.Transport = core.Pick(r, "tcp", "tcp", "udp")
 		sc.Provider = core.Pick(r, 0, 0, 1, 2, 3)
+		sc.Split = sc.Transport == "tcp" && core.Chance(r, 30)
+		if sc.Transport == "tcp" && core.Chance(r, 30) {
+			sc.Stall = core.Pick(r, 10, 40, 100)
+		}
 		// (datagram sessions only: there every request has a response writer of its own; on a stream the
 		// writer belongs to the connection and the server moves on to the next request when the handler returns)
 		sc.Async = sc.Transport == "udp" && core.Chance(r, 35)
@@ -198,6 +205,7 @@ func Gen(seed uint64, tier string) any {
 	sc.InitialMAC = core.Chance(r, 50)
 	sc.TimersFirst = core.Chance(r, 10)
 	sc.DefaultTime = core.Chance(r, 12)
+	sc.KeyCase = core.Chance(r, 15)
 	if !sc.DefaultTime && core.Chance(r, 15) {
 		sc.TsigErr = core.Pick(r, 18, 18, 23)
 	}
@@ -418,6 +426,12 @@ func runBare(sc *Scenario, res *core.Result, verbose bool) {
 		prior = hex.EncodeToString([]byte("request-mac-0123456789abcdef"))
 	}
 	var chain []signedMsg
+	spell := func(m *dns.Msg) {
+		if stub := m.IsTsig(); stub != nil && sc.KeyCase {
+			stub.Hdr.Name = "TSIG-Key.eXample."
+			res.Bump("cover.key_name_with_capitals")
+		}
+	}
 	for i, rc := range sc.Msgs {
 		m := rc.Build()
 		unsigned, perr := m.Copy().Pack()
@@ -434,6 +448,7 @@ func runBare(sc *Scenario, res *core.Result, verbose bool) {
 			// however long the provider takes
 			m.SetTsig(keyName, sc.Alg, uint16(sc.Fudge), 0)
 			signT = time.Now().Unix()
+			spell(m)
 			out, mac, err = dns.TsigGenerateWithProvider(m, slowHMAC{secretGood, 1200 * time.Millisecond}, prior, timers)
 			res.Bump("fault.slow_tsig_provider")
 		} else {
@@ -447,6 +462,7 @@ func runBare(sc *Scenario, res *core.Result, verbose bool) {
 					res.Bump("fault.tsig_error_field_set")
 				}
 			}
+			spell(m)
 			out, mac, err = dns.TsigGenerate(m, secretGood, prior, timers)
 		}
 		res.Bump("oracle.G2_generated_shape")
@@ -474,7 +490,7 @@ func runBare(sc *Scenario, res *core.Result, verbose bool) {
 		}
 		// G2: what was generated is itself RFC 8945-valid for the arguments given (judged at its own signing time)
 		pbG, _ := hex.DecodeString(prior)
-		if v := oracle.VerifyTSIG(out, map[string]string{keyName: secretGood}, pbG, timers, ts.Time); v.Judgable && !v.Valid {
+		if v := oracle.VerifyTSIGCase(out, map[string]string{keyName: secretGood}, pbG, timers, ts.Time, true); v.Judgable && !v.Valid {
 			res.Fail("G2", "generated-not-rfc-valid:"+strings.ReplaceAll(v.Reason, " ", "-"), "message %d as signed by TsigGenerate (timers-only=%v, request MAC %d octets) is not RFC 8945-valid: %s", i, timers, len(pbG), v.Reason)
 			return
 		}
@@ -607,7 +623,7 @@ func runBare(sc *Scenario, res *core.Result, verbose bool) {
 			keyOnWire = t.KeyName
 		}
 		pb, _ := hex.DecodeString(vprior)
-		v := oracle.VerifyTSIG(b, map[string]string{keyOnWire: secret}, pb, vtimers, now)
+		v := oracle.VerifyTSIGCase(b, map[string]string{keyOnWire: secret}, pb, vtimers, now, true)
 		lerr, pan := verify(append([]byte(nil), b...), secret, vprior, vtimers)
 		if pan != "" {
 			res.Fail("V1", "verify-panic", "TsigVerify panicked on %s: %s", desc, pan)
@@ -657,7 +673,7 @@ func sweepAll(res *core.Result, sm signedMsg, now uint64, idx int) bool {
 		if t, _, ok := oracle.FindTSIG(b); ok {
 			keyOnWire = t.KeyName
 		}
-		v := oracle.VerifyTSIG(b, map[string]string{keyOnWire: secretGood}, pb, sm.timers, now)
+		v := oracle.VerifyTSIGCase(b, map[string]string{keyOnWire: secretGood}, pb, sm.timers, now, true)
 		lerr, pan := verify(append([]byte(nil), b...), secretGood, sm.prior, sm.timers)
 		if pan != "" {
 			res.Fail("V1", "verify-panic", "TsigVerify panicked on %s of message %d: %s", what, idx, pan)
@@ -1154,8 +1170,35 @@ func (c *sessClient) RunEvent(time.Time) {
 			}
 			continue
 		}
-		r, _, err := cl.ExchangeWithConn(m, co)
-		cs := cliSeen{conn: len(s.relays) - 1, frame: reads, id: m.Id, err: common.ErrStr(err), got: r != nil, t: time.Now()}
+		var r *dns.Msg
+		var err error
+		seenAt := time.Time{}
+		if sc.Split && len(sc.Ops) == 0 {
+			// the reply is read by another task, which is waiting before the query goes out
+			// (on a link that delivers every message once and in order: a reader that finds an old message
+			// while the writer is still signing the next query would share the connection's TSIG state
+			// with it unsynchronised - a caller's mistake, not the library's)
+			co.TsigSecret, co.TsigProvider = cl.TsigSecret, cl.TsigProvider
+			co.SetDeadline(time.Now().Add(cl.Timeout))
+			rd := &sessReader{s: s, co: co}
+			k.Go("reader"+strconv.Itoa(i), rd)
+			werr := co.WriteMsg(m)
+			k.Wait("cli.reader", 0, rd, 0)
+			r, err, seenAt = rd.r, rd.err, rd.t
+			if err == nil && r != nil && r.Id != m.Id {
+				err = dns.ErrId
+			}
+			if werr != nil {
+				r, err = nil, werr
+			}
+			k.Bump("cover.reply_read_by_another_task")
+		} else {
+			r, _, err = cl.ExchangeWithConn(m, co)
+		}
+		if seenAt.IsZero() {
+			seenAt = time.Now()
+		}
+		cs := cliSeen{conn: len(s.relays) - 1, frame: reads, id: m.Id, err: common.ErrStr(err), got: r != nil, t: seenAt}
 		if r != nil {
 			cs.hasSig = r.IsTsig() != nil
 			reads++ // one message of the stream was consumed
@@ -1173,6 +1216,28 @@ func (c *sessClient) RunEvent(time.Time) {
 		co.Close()
 	}
 }
+
+// sessReader reads one message from the client's connection (Scenario.Split).
+type sessReader struct {
+	s    *sess
+	co   *dns.Conn
+	r    *dns.Msg
+	err  error
+	t    time.Time
+	done bool
+}
+
+//go:norace
+func (x *sessReader) RunEvent(time.Time) {
+	r, err := x.co.ReadMsg()
+	x.s.k.Announce()
+	x.s.k.Lock()
+	x.r, x.err, x.t, x.done = r, err, time.Now(), true
+	x.s.k.Unlock()
+}
+
+//go:norace
+func (x *sessReader) Holds() bool { return x.done }
 
 type sessServe struct{ s *sess }
 
@@ -1222,6 +1287,7 @@ func runSession(sc *Scenario, res *core.Result, verbose bool) {
 	defer kernel.SetCurrent(nil)
 	n := simnet.New(k)
 	n.Stream = simnet.StreamLink{MinDelay: time.Millisecond, Jitter: time.Millisecond, SegMode: sc.SegMode}
+	n.StallWrites, n.StallMaxMs = sc.Stall, 50
 	s := &sess{sc: sc, k: k, n: n, res: res}
 	s.l = n.Listen()
 	s.srv = &dns.Server{Listener: s.l, Handler: s, ReadTimeout: time.Hour, IdleTimeout: hourIdle}
